@@ -15,7 +15,8 @@ for n in sorted(os.listdir(os.path.join(V, 'seeded'))):
     t = time.time()
     r = subprocess.run([os.path.join(V, 'tools', 'run_seeded.sh'), n], capture_output=True, text=True)
     out = r.stdout.strip()
-    if 'VIOLATION' in out and 'no-failing-input-found' not in out.split('VIOLATION', 1)[1].split('\n')[0]:
+    vl = [l for l in out.split('\n') if 'VIOLATION' in l]
+    if any('no-failing-input-found' not in l for l in vl):
         verdict = 'caught with a concrete witness'
     elif 'VIOLATION' in out:
         verdict = 'caught (proof/correspondence broken, no failing input found)'
